@@ -479,19 +479,45 @@ def muc_selftest(ctx, trace):
     m = [dict(e) for e in base]
     m.insert(i + 1, dict(m[i]))
     muts.append(("a second return of the same call", m))
+    # invitations: a trace with at least two callbacks for one message (when the run has one)
+    inv = [t for t, tr in trs.items() if len([e for e in tr if e.get("ev") == "invite_cb"]) >= 2 and not any(e.get("ev") == "stuck" for e in tr)]
+    bases = [("unchanged", [dict(e) for e in base])]
+    if inv:
+        ib = [{k: v for k, v in e.items() if k != "_line"} for e in trs[inv[0]]]
+        bases.append(("unchanged (invitations)", [dict(e) for e in ib]))
+        c = [k for k, e in enumerate(ib) if e.get("ev") == "invite_cb"]
+        m = [dict(e) for e in ib]
+        del m[c[0]]
+        muts.append(("an invitation callback removed", m))
+        m = [dict(e) for e in ib]
+        m.insert(c[0], dict(m[c[0]]))
+        muts.append(("an invitation delivered twice", m))
+        m = [dict(e) for e in ib]
+        m[c[1]]["k"] = m[c[0]]["k"]
+        muts.append(("two callbacks with the same <invite/>, one <invite/> missing", m))
+        m = [dict(e) for e in ib]
+        m[c[0]]["pw"] = "none" if m[c[0]]["pw"] == "ok" else "ok"
+        muts.append(("the password of an invitation not carried", m))
+        j = [k for k, e in enumerate(ib) if e.get("ev") == "send" and e["st"]["ty"] == "inv"]
+        if j:
+            m = [dict(e) for e in ib]
+            m[j[0]] = dict(m[j[0]], st=dict(m[j[0]]["st"], lay=["b"] + [x for x in m[j[0]]["st"]["lay"] if x != "b"]))
+            bases.append(("unchanged but for the position of the payload among the children", m))
     p = ctx.path("muc-selftest.ndjson")
     line = 0
     with open(p, "w") as f:
-        for k, (_, mm) in enumerate([("unchanged", [dict(e) for e in base])] + muts):
+        for k, (_, mm) in enumerate(bases + muts):
             mm[0]["t"] = k + 1
             mm[0]["end"] = line + len(mm) + 1
             for e in mm:
                 f.write(json.dumps(e) + "\n")
             line += len(mm)
     rej, _ = muc_validate(ctx, p, name="TrMUC_selftest")
-    if 1 in rej:
-        raise verif.Undecided("binding self-test: unchanged trace rejected")
-    missed = [muts[k - 2][0] for k in range(2, 2 + len(muts)) if k not in rej]
+    nb = len(bases)
+    bad = [bases[k - 1][0] for k in range(1, nb + 1) if k in rej]
+    if bad:
+        raise verif.Undecided("binding self-test: good trace rejected: %s" % bad)
+    missed = [muts[k - nb - 1][0] for k in range(nb + 1, nb + 1 + len(muts)) if k not in rej]
     if missed:
         raise verif.Undecided("binding self-test: corrupted traces ACCEPTED: %s" % missed)
     return len(muts)
@@ -504,6 +530,7 @@ def run_c06_muc_part(ctx):
     cancellation.  Violations are reported under the calling check's property (C06); the pure
     membership / callback clauses of C18 are left to C18."""
     quick = ctx.tier == "quick"
+    mcr = None
     if ctx.replay:
         case = json.load(open(ctx.replay))["case"]
         if case.get("family") != "muc":
@@ -511,10 +538,19 @@ def run_c06_muc_part(ctx):
         scen = [case["scenario"]]
         files, summ = muc_run(ctx, scen, "c06muc", shards=1)
     else:
-        scen = muc_explore_scenarios(ctx.tier)
+        # design check of the hand-over of an error reply (session -> sender goroutine -> call), the room
+        # delivering stanzas whole or in two pieces; the deviation "error offered without watching the
+        # context" must wedge the serve loop
+        (mcr,), _ = muc_design_runs(ctx, [("MCMUC_split", dict(rooms='{"r1"}', ids="Ids3", maxenv=6 if quick else 7, alpha="AlphaSplit", splits="TRUE"))],
+                                    ["ErrHandoverBlocks"])
+        base = muc_explore_scenarios(ctx.tier)
+        lc = muc_leave_cancel_scenarios(ctx.tier)
+        scen = [x for x in base if x["steps"] not in lc]
         if quick:
             scen = scen[:6]
-        seq = muc_emit(ctx, [('{"r1"}', 4 if quick else 5, 3, 0)])
+        scen += [{"mode": "explore", "steps": x} for x in lc] + [{"mode": "seq", "steps": x} for x in lc]
+        # protocol level: every script up to the bound, also with one stanza delivered in two pieces
+        seq = muc_emit(ctx, [('{"r1"}', 4 if quick else 5, 3, 0), ('{"r1"}', 5 if quick else 6, 3, 0, {"split": 1, "cuts": "{1, 2, 3}" if quick else "{1, 3}"})])
         files, summ = muc_run(ctx, scen + seq, "c06muc", maxpre=1, maxruns=40 if quick else 400)
     tr, meta = merge_traces(ctx, files, "c06muc-trace.ndjson")
     rej, r = muc_validate(ctx, tr, name="TrMUC_c06", c06only=True)
@@ -522,7 +558,8 @@ def run_c06_muc_part(ctx):
     ctx.log("C06/muc: %d schedules (%d distinct traces, %d events), hooks %s; TLC validated in %.1fs: %d rejected %s" % (
         summ["evaluations"], summ["traces"], summ["events"], "on" if summ["hooks"] else "OFF (tree without yield points: windows not forced)",
         r.wall, len(rej), per or ""))
-    return {"muc_schedules_run": summ["evaluations"], "muc_traces_validated": summ["traces"], "muc_trace_events": summ["events"],
+    return {"muc_split_design_states": mcr.distinct if mcr else 0,
+            "muc_schedules_run": summ["evaluations"], "muc_traces_validated": summ["traces"], "muc_trace_events": summ["events"],
             "muc_trace_states": r.distinct, "muc_rejected": len(rej), "muc_hooks": summ["hooks"], "muc_rejections_by_clause": per}
 
 
